@@ -8,25 +8,36 @@ Local Open Scope N_scope.
 Inductive obs := OOk (b : bytes) | OOkNoCbor | OErr | OPanic | OAbort | OTimeout.
 
 (* Known finding C02-huge-declared-length: the input contains, at some offset, a byte/text string head declaring a
-   length of at least 2^31 bytes that the rest of the input cannot supply.  cbor_event allocates the declared
+   length of at least 2^31 bytes.  cbor_event allocates the declared
    length before reading (vec![0; len]): capacity-overflow panic from 2^63, allocation failure (abort) below. *)
 Definition huge_threshold : N := 2147483648.
 Definition huge_head (bs : bytes) : bool :=
   match decode_head bs with
-  | Some (m, Arg n, r) => ((m =? 2) || (m =? 3)) && (huge_threshold <=? n) && (N.of_nat (length r) <? n)
+  | Some (m, Arg n, r) => ((m =? 2) || (m =? 3)) && (huge_threshold <=? n)
   | _ => false
   end.
 Fixpoint has_huge (bs : bytes) : bool :=
   huge_head bs || match bs with [] => false | _ :: t => has_huge t end.
 
-Inductive verdict := Holds | Fails | FailsKnownHuge.
+(* Known finding C02-illformed-input-preserved: the first data item of the INPUT is itself not well-formed CBOR, the
+   library accepts it all the same (the hand-written / early generated array readers do not compare a definite array
+   length with the number of fields they read: "TODO: check finite len somewhere"), and a type that keeps the bytes it
+   was read from (PlutusData, FixedTransaction, FixedTransactionBody, ...) re-emits them verbatim.  An ill-formed
+   re-serialisation of a WELL-FORMED input is never in this class. *)
+Definition first_item_wf (bs : bytes) : bool := is_ok (parse_one bs).
+
+Inductive verdict := Holds | Fails | FailsKnownHuge | FailsKnownPreserved.
 
 (* [cbor_out]: the entry point re-serialises to CBOR (so the bytes must be one well-formed data item);
    [input]: the bytes that reached the CBOR reader (decoded from hex/base58 where applicable, [] if none) *)
 Definition judge (cbor_out : bool) (input : bytes) (o : obs) : verdict :=
   match o with
   | OErr | OOkNoCbor => Holds
-  | OOk b => if cbor_out then (if item_wf b then Holds else Fails) else Holds
+  | OOk b =>
+      if cbor_out then
+        (if item_wf b then Holds
+         else if is_nil input || first_item_wf input then Fails else FailsKnownPreserved)
+      else Holds
   | OPanic | OAbort => if has_huge input then FailsKnownHuge else Fails
   | OTimeout => Fails
   end.
